@@ -282,3 +282,7 @@ def check(cx):
                        "every index is probed" if not skip_path else "an index is skipped only when none of its key columns is touched",
                        "validate_unique_constraints can finish an index without probing it, decided by %s: an UPDATE that assigns only part of a "
                        "composite key is not checked against the rows that already hold the resulting key" % (bad_dec or sorted(deciders)))
+
+    # ---- C07.12 (construct shared with C15.11) ---------------------------------------------------------------------------
+    cx.include(c15, {"C15.11"}, "C07.12", "shared with C15.11: SET NOT NULL always leaves the column NOT NULL (it stores the constant, not the "
+               "instruction's previous-state flag); otherwise a repeated migration makes the column nullable and NULLs are committed", floor=2)
